@@ -2772,6 +2772,23 @@ impl<'a, E: quiver_core::effects::Effect> Compiler<'a, E> {
             } else {
                 None
             };
+            // which local each name stands for before the match (it may REBIND some)
+            let locals_before: HashMap<String, usize> = if match_is_followed {
+                self.scopes
+                    .last()
+                    .map(|s| {
+                        s.bindings
+                            .iter()
+                            .filter_map(|(name, binding)| match binding {
+                                Binding::Variable { index, .. } => Some((name.clone(), *index)),
+                                _ => None,
+                            })
+                            .collect()
+                    })
+                    .unwrap_or_default()
+            } else {
+                HashMap::new()
+            };
             let (term_type, term_prov) = self.compile_term(
                 term.clone(),
                 FlowingValue {
@@ -2787,6 +2804,28 @@ impl<'a, E: quiver_core::effects::Effect> Compiler<'a, E> {
                 && let Some(scope) = self.scopes.last_mut()
             {
                 scope.narrowings = saved;
+                // ... except for the names this match has just (re)bound: the narrowings saved
+                // under such a name describe the variable it REPLACED (compile_match dropped
+                // them for that reason; restoring the snapshot must not bring them back).
+                let rebound: Vec<String> = scope
+                    .bindings
+                    .iter()
+                    .filter_map(|(name, binding)| match binding {
+                        Binding::Variable { index, .. }
+                            if locals_before.get(name) != Some(index) =>
+                        {
+                            Some(name.clone())
+                        }
+                        _ => None,
+                    })
+                    .collect();
+                for name in rebound {
+                    scope.narrowings.variables.remove(&name);
+                    scope
+                        .narrowings
+                        .fields
+                        .retain(|(parent, _, _)| !provenance_rooted_at_variable(parent, &name));
+                }
             }
             // Nil flows through a chain like any other value: within a chain, no term
             // short-circuits on nil (a failed mid-chain match yields nil that flows into
